@@ -263,7 +263,7 @@ def shard(args):
                     ob.raises(f"typeerror/boost-needs-3D-or-4D{pid}", lambda: v.boost(w))
                     ob.raises(f"typeerror/boost_p4-needs-4D{pid}", lambda: v.boost_p4(w))
                     ob.raises(f"typeerror/boost_beta3-needs-3D{pid}", lambda: v.boost_beta3(w))
-    return ob.n, ob.bad
+    return ob.n, ob.bad, ob.ops
 
 
 def _short(d):
@@ -370,7 +370,7 @@ def replay(prop, rp, path):
     if not m:
         print(rp)
         return 1
-    n, bad = shard((tuple(m.group(1).split(",")), m.group(2) == "mom"))
+    n, bad = shard((tuple(m.group(1).split(",")), m.group(2) == "mom"))[:2]
     hit = [b for b in bad if b[0] == oid]
     for b in hit[:3]:
         print("still failing:", b)
